@@ -286,7 +286,7 @@ def run(R, ctx):
         "Static coverage proof over the AST type graph (derived from the ADT facts): every slot that can hold a Token is "
         "reached by each comment/whitespace walker; plus an effect whitelist (only Token trivia is ever mutated), the "
         "retain predicates evaluated on every TriviaKind, and a MIR path rule for append_text_comment's line shift. "
-        "Decides the wiring, not the regex or text content semantics."
+        "Decides the wiring, not the regex or text content semantics. Decision / transfer functions among these are decided by finite-domain evaluation of their typed tree (sa/peval.py): every point of a small abstract domain is evaluated and compared with the reference; nothing is sampled and no program input exists."
     )
     R.assumptions += [
         "coverage is decided per (ADT, slot) over the whole walker family (not path-sensitive)",
